@@ -185,7 +185,7 @@ theorem v3_temporal_facts (minor : Nat) (hm : minor = 0 ∨ minor = 1)
     rw [← t1', t2']
   · generalize hB : v3Roundup10 minor (Q.min ((if s = cC then Q.dec 108 100 else one) * (x + ex)) ten) = B
     have hF1 : v3Finish minor s x ex (milli 1000) (milli 1000) (milli 1000) = B := by
-      simp only [v3Finish, hle, if_false, hB]
+      simp only [v3Finish, hle, hB]
       exact v3Roundup10_id minor B
     rw [hF1] at hrange ⊢
     obtain ⟨hB0, hB100⟩ := hrange
